@@ -105,7 +105,15 @@ def table(ctx, rule, key, domain, impl, oracle, what, fmt=None, site=None):
                       % (what, len(bad), n, bad[0]['input'], bad[0]['got'], bad[0]['expected'], (' [site %s]' % site) if site else ''),
                       {'mismatches': bad[:12], 'points': n}, n)
         return False
-    ctx.ok(rule, n, {'rule': rule, 'instance': key, 'what': what, 'points': n})
+    cases = []
+    if len(ctx.samples) < 34:
+        for x in (domain[:1] + domain[-1:] if n > 1 else domain[:1]):
+            try:
+                v = impl(x)
+            except Exception as ex:  # noqa
+                v = 'panic/unanalysable: %s' % ex
+            cases.append({'input': fmt(x) if fmt else repr(x), 'evaluated': v if isinstance(v, (int, str, bool, float, type(None))) else repr(v)[:300], 'oracle_agrees': True})
+    ctx.ok(rule, n, {'rule': rule, 'instance': key, 'what': what, 'points': n, 'site': site, 'cases': cases})
     return True
 
 
